@@ -1,6 +1,8 @@
 import IcyVerif.Lemmas.LoadersDispatch
 import IcyVerif.Lemmas.LoadersTdf
 import IcyVerif.Lemmas.LoadersIcy
+import IcyVerif.Lemmas.FontLoad
+import IcyVerif.Lemmas.PalLoad
 /-! # C02 — no file content can crash a loader
 
 Only property theorems and non-vacuity examples live here.  `load d ≠ .panic s` for every site `s` is the
@@ -15,9 +17,15 @@ Three loaders (BIN, ADF, Tundra) count rows in an `i32` that grows with the file
 2 GiB - 64 KiB).  FULL STATEMENT (without the bound) is false in the debug profile for files of several GiB
 (the row counter overflows) — such a file cannot be held in the engine's `Vec<Line>` anyway; it is outside
 what this check can exercise and is stated here instead of being hidden.  XBin and IDF had the same problem
-at 100 MB / 196 KB and were repaired (`fix:` commits), so `xb_total` and `idf_total` are unconditional. -/
+at 100 MB / 196 KB and were repaired (`fix:` commits), so `xb_total` and `idf_total` are unconditional.
+
+Bitmap fonts (`Model/FontLoad.lean`) and palette importers (`Model/PalLoad.lean`) are stand-alone models of the same kind
+(`bitfont_total`, `palette_import_total`, unconditional).  For them the translator also regenerates an inventory of every
+source line in the loader functions that could panic (`loaderSites`); `loader_sites_known` demands that each is one the
+model accounts for, and `glyph_guard_present` / `palette_conversions_pinned` pin the two source facts the proofs use. -/
 namespace IcyVerif.C02
 open IcyVerif.Bytes IcyVerif.Bytes.Res IcyVerif.Loaders IcyVerif.Gen.Loaders
+open IcyVerif.FontLoad IcyVerif.PalLoad IcyVerif.Gen.FontPal
 
 /-- XBin (`XBin::load_buffer`: header, palette, font blocks, compressed and uncompressed data), with or without
     a SAUCE size: never panics, for ALL byte strings -/
@@ -112,6 +120,92 @@ theorem from_bytes_total (d : List Nat) (hd : d.length + 65536 < 2147483648) (ex
     ∀ s, fromBytes d.toArray ext dateOk = .panic s → s = sSauce :=
   fun _ h => (fromBytes_site d.toArray (by unfold FitsI32; simpa using hd) ext dateOk).panic_site h
 
+-- ------------------------------------------------------------------------------------------------ bitmap fonts, palettes
+
+/-- the zero-height guard of `glyphs_from_u8_data` is in the source (flag regenerated by `tools/gens/fontpal.py`);
+    every font theorem below is proved FROM this fact, so removing the guard breaks them -/
+theorem glyph_guard_present : glyphZeroGuard = true := by decide
+
+/-- bitmap fonts (`BitFont::from_bytes`: length guard, PSF1 / PSF2 sniffing, `load_psf1`, `load_psf2` with its `i64`/`u64`
+    consistency arithmetic, `load_plain_font`, `glyphs_from_u8_data`): never a panic and never a glyph loop that fails to
+    terminate (fuel exhausted = `.panic "…::diverge"`), for ALL byte strings -/
+theorem bitfont_total (d : List Nat) : ∀ s, fontFromBytes d.toArray ≠ .panic s :=
+  (fontFromBytes_sat glyph_guard_present d.toArray).noPanic
+
+/-- the guard matters: in a tree without it a PSF1 header with character height 0 diverges on every file -/
+theorem bitfont_needs_zero_guard (hg : glyphZeroGuard = false) (d : List Nat) (o : Nat) (ho : o ≤ d.length) :
+    glyphsFrom 0 d.toArray o = .panic sDiverge :=
+  glyphsFrom_needs_guard hg d.toArray o (by simpa using ho)
+
+/-- the five palette importers (`Palette::load_palette`: UTF-8 check, line loop, regex matches, `parse::<u32>()?`,
+    `from_str_radix(_, 16)?`, `as u8`) and the extension dispatch of `import_palette`: never a panic, for ALL byte strings,
+    every format, every extension (known, unknown or missing) -/
+theorem palette_import_total (f : IcyVerif.Palette.Fmt) (d : List Nat) : ∀ s, palLoad f d ≠ .panic s :=
+  (palLoad_sat f d).noPanic
+
+theorem palette_import_ext_total (ext : Option String) (d : List Nat) : ∀ s, palImport ext d ≠ .panic s :=
+  (palImport_sat ext d).noPanic
+
+/-- pinned by the translator: every conversion of a number found in a palette file is `.parse::<u32>()?` or
+    `u32::from_str_radix(_, 16)?` — the `Err` outcome of `parseU32` is what `?` propagates (an `unwrap`, or a wider type
+    that is then used as a size, flips the flag) -/
+theorem palette_conversions_pinned : palConversionsChecked = true := by decide
+
+/-- a decimal channel of 2^32 or more, or written with non-ASCII digits, is an `Err` — it is never truncated, never
+    used as a size -/
+theorem palette_number_overflow_is_err (ds : List Nat) (h : 4294967296 ≤ IcyVerif.Palette.decVal ds) : parseU32 ds = .err := by
+  unfold parseU32
+  split
+  · rename_i hh; omega
+  · rfl
+
+/-- lines of the font / palette loader functions that contain a construct which can panic in the debug profile
+    (index, slice, unwrap, allocation from a number, arithmetic, cast, `todo!`), as 48-bit fingerprints of
+    `file::fn::line`; next to each: the model operation that accounts for it -/
+def knownSiteIds : List Nat := [
+  177752670417767,   -- glyphs_from_u8_data: data[..font_height]                      -> slice (glyphLoop)
+  244539708662553,   -- glyphs_from_u8_data: char::from_u32(ch as u32)                -> scalarsBelow (no panic: checked conversion)
+  35319426141771,   -- glyphs_from_u8_data: data = &data[font_height..]              -> slice (glyphLoop)
+  20139745512573,   -- glyphs_from_u8_data: ch += 1                                  -> usize counter <= data.len()
+  48671801667160,   -- load_psf1: data[2]                                            -> rd
+  112554629936380,   -- load_psf1: data[3]                                            -> rd
+  103600904436763,   -- load_psf1: &data[4..], charsize as usize                      -> slice
+  180293644882313,   -- load_plain_font: data.len() % 256                             -> constant divisor
+  68003725177329,   -- load_plain_font: data.len() / 256                             -> constant divisor
+  175861348391845,   -- load_plain_font: char_height as i32                           -> asI32 (wrapping cast)
+  218247223516129,   -- load_psf2: data[4..8].try_into().unwrap()                     -> rdU32
+  111950791377630,   -- load_psf2: data[8..12]                                        -> rdU32
+  52832596720901,   -- load_psf2: data[16..20] as i32                                -> rdU32, asI32
+  11722076513318,   -- load_psf2: data[20..24] as i32                                -> rdU32, asI32
+  187740461968721,   -- load_psf2: data[24..28]                                       -> rdU32
+  25605184388145,   -- load_psf2: data[28..32]                                       -> rdU32
+  72185841379756,   -- load_psf2: i64 product and sum                                -> chkI64 (twice)
+  89078562687065,   -- load_psf2: u64 sum, division by 8, product                    -> chkU64 (twice)
+  156334085594325,   -- load_psf2: expected as usize (error message)                  -> wrapping cast
+  8650048178242,   -- load_psf2: &data[headersize..]                                -> slice
+  131448068814851,   -- from_bytes: data[0..2].try_into().unwrap()                    -> rdU16s
+  89905606661340,   -- from_bytes: data[0..4].try_into().unwrap()                    -> rdU32
+  95741062839190,   -- calculate_checksum: char::from_u32(ch as u32)                 -> cksumIters (checked conversion)
+  244011783155096,   -- create_8: height as usize (u8)                                -> XBin/ADF/IDF models (Model/Loaders)
+  277559259562542,   -- from_basic: height as usize (u8)                              -> XBin/ADF/IDF models
+  131060951300826,   -- load_palette/Hex: `[r, g, b]` is a pattern, not an index      -> colorsOfHexText
+  70432448588115,   -- load_palette/Hex: r as u8 …                                   -> parseHex2 < 256
+  209235545710915,   -- load_palette/Pal: pattern                                     -> scanWith (rgbAtWith isNd)
+  237685006872747,   -- load_palette/Pal: r as u8 …                                   -> rgbOfDec (% 256)
+  18540541025581,   -- load_palette/Gpl: pattern                                     -> findFirst (rgbAtWith isNd)
+  134959383358329,   -- load_palette/Gpl: r as u8 …                                   -> rgbOfDec (% 256)
+  41759450870794,   -- load_palette/Ice: pattern                                     -> findFirst (hexRun 6)
+  125308993284890,   -- load_palette/Ice: r as u8 …                                   -> parseHex2 < 256
+  70472089431505,   -- load_palette/Txt: pattern                                     -> findFirst (hexRun 8)
+  257238798813892,   -- load_palette/Txt: r as u8 …                                   -> parseHex2 < 256
+  102846824837714    -- load_palette: PaletteFormat::Ase => todo!()  (selected by the caller only: outside the quantifier)
+]
+
+/-- the translator's inventory of the current source contains no such line outside the table: a new index, unwrap,
+    `reserve(count)`, `with_capacity(len / height)` … in these functions is an undischarged obligation -/
+theorem loader_sites_known : loaderSiteIds.all (fun l => knownSiteIds.contains l) = true := by decide +kernel
+theorem loader_sites_complete : loaderSiteIds.length = loaderSites.length := by decide +kernel
+
 -- ------------------------------------------------------------------------------------------------ non-vacuity
 
 /-- (the expected line counts depend on whether the loader clears the 25 lines `Buffer::new` creates — a change
@@ -160,5 +254,24 @@ example : loadAdf #[1, 0, 0, 65, 7] none = .err := by decide
 example : loadIdf #[4, 49, 46, 52, 0, 0, 0, 0, 79, 0, 0, 0, 65, 7] none = .err := by decide
 /-- extension dispatch is case-insensitive and falls back to the ANSI loader -/
 example : loaderFor "XB" = "xbinary" ∧ loaderFor "an7" = "renegade" ∧ loaderFor "zzz" = "ansi" := by decide +kernel
+
+/-- fonts: a PSF1 header announcing height 0 in front of data loads as an empty font (the pinned tree never returned);
+    PSF1 with 2 complete glyphs and a ragged tail; PSF2 whose length field contradicts the file; raw data by length -/
+example : fontFromBytes #[0x36, 0x04, 0, 0, 1, 2, 3] = .ok ⟨8, 0, 256, 0, 0, 256⟩ := by decide
+example : fontFromBytes #[0x36, 0x04, 1, 2, 1, 2, 3, 4, 5] = .ok ⟨8, 2, 512, 2, 2, 512⟩ := by decide
+example : fontFromBytes (#[0x72, 0xb5, 0x4a, 0x86, 0,0,0,0, 32,0,0,0, 0,0,0,0, 255,255,255,127, 16,0,0,0, 16,0,0,0, 8,0,0,0]) = .err := by decide
+example : fontFromBytes #[1, 2, 3] = .err := by decide
+example : fontFromBytes #[1, 2, 3, 4, 5] = .err := by decide
+/-- the primitive the loop is built from does fail when asked for more than is there -/
+example : glyphLoop 3 #[1, 2, 3, 4] 5 2 0 = .ok 0 := by decide
+example : glyphLoop 0 #[1, 2, 3, 4] 5 2 0 = .panic sDiverge := by decide
+/-- palettes: a JASC count line is ignored whatever it says; a channel of 2^32 is an error; Arabic-Indic digits match
+    `\d` and then fail to parse; not UTF-8 is an error -/
+example : palLoad .pal ("JASC-PAL\n0100\n18446744073709551615\n1 2 300\n".toList.map Char.toNat) = .ok [⟨1, 2, 44⟩] := by decide +kernel
+example : palLoad .pal ("JASC-PAL\n0100\n1\n4294967296 2 3\n".toList.map Char.toNat) = .err := by decide +kernel
+example : palLoad .gpl ("GIMP Palette\n".toList.map Char.toNat ++ [0xD9, 0xA1, 32, 0xD9, 0xA2, 32, 0xD9, 0xA3, 10]) = .err := by decide +kernel
+example : palLoad .hex [0x66, 0x66, 0xFF] = .err := by decide +kernel
+example : palImport (some "PAL") [] = .ok [] ∧ palImport (some "ice") [] = .err ∧ palImport none [] = .err := by decide +kernel
+example : knownSiteIds.length = 36 := by decide
 
 end IcyVerif.C02
